@@ -144,7 +144,8 @@ def run(args):
     npd = 0
     for v, cls, short, need in (("SO3", "manif::SO3Base", "inverse", "conjugate"), ("SO3", "manif::internal::CastEvaluatorImpl", "run", "normalized"),
                                 ("SE3", "manif::internal::CastEvaluatorImpl", "run", "normalized"), ("SE_2_3", "manif::internal::CastEvaluatorImpl", "run", "normalized"),
-                                ("SGal3", "manif::internal::CastEvaluatorImpl", "run", "normalized")):
+                                ("SGal3", "manif::internal::CastEvaluatorImpl", "run", "normalized"),
+                                ("SO2", "manif::internal::CastEvaluatorImpl", "run", "(angle "), ("SE2", "manif::internal::CastEvaluatorImpl", "run", "(angle ")):
         F = FX.get(v)
         fs = [g for g in F.functions if g["kind"] == "inst" and g.get("cls") == cls and g["short"] == short and g.get("body") and "Tangent" not in str(g.get("clsargs"))
               and (cls != "manif::internal::CastEvaluatorImpl" or ("%sBase<" % v) in str(g.get("clsargs")))]
@@ -191,12 +192,12 @@ def run(args):
             rep.broke("R-JET cannot evaluate SO3TangentBase::exp small-angle arm: %s" % e)
     rep.floor("compose_functions", n, 3)
     rep.floor("delegations", nd, 3)
-    rep.floor("producers", npd, 7)
+    rep.floor("producers", npd, 9)
     rep.rules = [
         "C08.a R-MPT.renormalise: SO2/SE2/SO3 compose pass, before constructing the result, either an unconditional normalize()/normalized() or a step guarded by `abs(sqnorm - 1) > Constants::eps` that multiplies every coefficient entering sqnorm by the same factor s(sqnorm)",
         "C08.a R-JET.contraction (exact series): N*s(N)^2 - 1 = O((N-1)^2): one renormalisation contracts the deviation (the shipped polynomial 15/8 - 5N/4 + 3N^2/8 gives order 3)",
         "C08.b R-FWD.delegation: SE3 / SE_2_3 / SGal3 compose obtain the rotation part from SO3::compose",
-        "C08.c producers: SO3 inverse = conjugate, planar inverse = (real, -imag), cast<>() ends in normalized(), the small-angle arm of SO3 exp stays within the acceptance threshold (|q|-1 = th^2/8 <= eps/8)",
+        "C08.c producers: SO3 inverse = conjugate, planar inverse = (real, -imag), cast<>() ends in normalized() (3-D) / rebuilds the element from its angle (planar: cos/sin of one angle have unit norm in the new scalar type), the small-angle arm of SO3 exp stays within the acceptance threshold (|q|-1 = th^2/8 <= eps/8)",
     ]
     rep.units = ["SO2/SE2/SO3/SE3/SE_2_3/SGal3 double drivers"]
     rep.trusted = ["sympy", "clang AST", "Eigen normalize()/conjugate()/AngleAxis->Quaternion produce unit quaternions"]
